@@ -3,6 +3,9 @@
 #ifndef C10_WINDOW
 #define C10_WINDOW 6
 #endif
+#ifndef C10_K
+#define C10_K 3
+#endif
 namespace {
    const char8_t* const spec_names[18] = { u8"=0", u8"export", u8"public", u8"protected", u8"private", u8"consteval", u8"constexpr", u8"constinit", u8"explicit",
       u8"extern", u8"friend", u8"inline", u8"mutable", u8"register", u8"static", u8"thread_local", u8"typedef", u8"virtual" };
@@ -101,5 +104,33 @@ extern "C" void h_unknown(void) {
    // a basic qualifier name is not a basic specifier name and vice versa
    VP_REFUSED(static_cast<const ipr::Lexicon&>(lx).specifiers(ipr::Basic_specifier{ *w->QL[vp_pick(3)] }), 32);
    VP_REFUSED(static_cast<const ipr::Lexicon&>(lx).qualifiers(ipr::Basic_qualifier{ *w->SL[vp_pick(18)] }), 33);
+   vp_done();
+}
+// histories of lookups: each step asks one family (specifiers / qualifiers) for one name out of a pool holding basic specifier
+// names (first, middle, last table rows), basic qualifier names and a non-basic name; every answer depends on (family, name) only
+extern "C" void h_lookup_history(void) {
+   World* w = new World; const ipr::Lexicon& lx = w->lx;
+   const ipr::Logogram& unknown = w->lx.get_logogram(w->lx.get_string(u8"zzz"));
+   struct { const ipr::Logogram* g; int spec; int qual; } pool[] = { { w->SL[0], 0, -1 }, { w->SL[2], 2, -1 }, { w->SL[9], 9, -1 }, { w->SL[17], 17, -1 },
+      { w->QL[0], -1, 0 }, { w->QL[1], -1, 1 }, { w->QL[2], -1, 2 }, { &unknown, -1, -1 } };
+   uint64_t sbit[18], qbit[3]; bool shave[18] = { }, qhave[3] = { };
+   for (int k = 0; k < C10_K; ++k) {
+      unsigned n = vp_pick(8); bool fam = vp_flag();
+      uint64_t v = 0; int out;
+      if (fam) out = vp_outcome([&] { v = util::rep(lx.specifiers(ipr::Basic_specifier{ *pool[n].g })); });
+      else out = vp_outcome([&] { v = util::rep(lx.qualifiers(ipr::Basic_qualifier{ *pool[n].g })); });
+      int idx = fam ? pool[n].spec : pool[n].qual;
+      vp_assert((out == 0) == (idx >= 0), 40);                       // answered exactly for the names of the family asked
+      if (out == 0 && idx >= 0) {
+         vp_assert(single_bit(v), 41);
+         uint64_t* bit = fam ? sbit : qbit; bool* have = fam ? shave : qhave;
+         if (have[idx]) vp_assert(bit[idx] == v, 42);                // the same answer as before
+         for (int j = 0; j < (fam ? 18 : 3); ++j) if (j != idx && have[j]) vp_assert(bit[j] != v, 43);
+         bit[idx] = v; have[idx] = true;
+         // and the answer decomposes to the name asked
+         if (fam) { auto d = lx.decompose(ipr::Specifiers(v)); vp_assert(d.size() == 1 && d[0] == ipr::Basic_specifier{ *pool[n].g }, 44); }
+         else { auto d = lx.decompose(ipr::Qualifiers(v)); vp_assert(d.size() == 1 && d[0] == ipr::Basic_qualifier{ *pool[n].g }, 45); }
+      }
+   }
    vp_done();
 }
